@@ -553,3 +553,259 @@ MISC = [
 def family_misc(rng, tier):
     for m in MISC:
         yield list(m), {"family": "misc"}
+
+
+def family_ops(rng, tier):
+    for op in DYADS:
+        for a in VALS:
+            yield ['(%s)%s(%s)' % (a, op, b) for b in VALS], {"family": "ops"}
+    for op in MONADS:
+        yield ['%s(%s)' % (op, a) for a in VALS], {"family": "ops"}
+
+
+def merge_inputs(rng, tier):
+    """argument lists handed to the real merge_projections: every base of length 1..3 (4 in thorough) and up to
+    3 further lists of length 1..3 over {None, distinct values}; plus the None / empty special cases"""
+    out = [[], [None], [[1]], [[None]], [[1, None], None], [[1, 2], None], [[None, None], [1], None]]
+    ctr = itertools.count(10)
+
+    def lists(n):
+        for bits in itertools.product([0, 1], repeat=n):
+            yield bits
+    maxlen = 3 if tier == "quick" else 4
+    bases = [b for n in range(1, maxlen + 1) for b in lists(n)]
+    fills = [f for n in range(1, 4) for f in lists(n)]
+    def mk(bits):
+        return [next(ctr) if b else None for b in bits]
+    for b in bases:
+        for k in range(0, 4):
+            combos = list(itertools.product(fills, repeat=k))
+            if k == 3 and tier == "quick":
+                rng.shuffle(combos)
+                combos = combos[:60]
+            for fs in combos:
+                ctr = itertools.count(10)
+                out.append([mk(b)] + [mk(f) for f in fs])
+    return out
+
+
+def arr_sx(arr):
+    return "(" + " ".join("(0)" if a is None else "(1 %s)" % " ".join("(n)" if v is None else "(i %d)" % v for v in a) for a in arr) + ")"
+
+
+def check_merge(chk, rng):
+    """klongpy.types.merge_projections itself against the model function and against the positional-fill spec"""
+    arrs = merge_inputs(rng, chk.tier)
+    impl = run_child([], merge=arrs)["merge"]
+    model = chk.run_model(["(merge %s)" % arr_sx(a) for a in arrs])
+    spec_req, spec_idx = [], []
+    for i, a in enumerate(arrs):
+        if a and all(x is not None for x in a) and len(a) >= 2 and None in a[0]:
+            spec_req.append("(fill %s %s)" % (arr_sx([a[0]])[1:-1], arr_sx(a[1:])))
+            spec_idx.append(i)
+    spec = dict(zip(spec_idx, chk.run_model(spec_req)))
+    bad_prop = bad_corr = None
+    for i, (a, im, mo) in enumerate(zip(arrs, impl, model)):
+        chk.count("evaluations")
+        chk.count("merge_direct")
+        if len(a) >= 2:
+            chk.count("distinct_nontrivial")
+        if sx(mo) != im and bad_corr is None:
+            bad_corr = {"kind": "merge-correspondence", "arr": a, "impl": im, "model": sx(mo)}
+        if i in spec:
+            # property oracle: positional filling, computed twice (python rule and the Coq Spec)
+            cur = list(a[0])
+            for f in a[1:]:
+                cur = py_fill(cur, f)
+            want = "(arr %s)" % " ".join("(n)" if v is None else "(i %d)" % v for v in cur) if cur else "(arr)"
+            if sx(spec[i]) != want and bad_corr is None:
+                bad_corr = {"kind": "spec-vs-python-rule", "arr": a, "spec": sx(spec[i]), "python": want}
+            if im != want and bad_prop is None:
+                bad_prop = {"kind": "merge_projections", "arr": a, "expected_by_positional_filling": want, "actual": im,
+                            "how": "klongpy.types.merge_projections(arr)"}
+    return bad_prop, bad_corr
+
+
+def strip_self(frames_sx):
+    """normalise a snapshot for the property oracle: 'unbound' and 'bound to its own symbol' are the same"""
+    fr = parse_sx(frames_sx)
+    out = []
+    for f in fr:
+        out.append([kv for kv in f if not (kv[1][0] == "y" and kv[1][1] == kv[0])])
+    return out
+
+
+def model_frames(m):
+    return sx([sorted(f, key=lambda kv: kv[0]) for f in m[2]])
+
+
+FUEL = 400
+
+
+def check_programs(chk, rng, fams):
+    cases = []
+    for fam in fams:
+        cases.extend(fam(rng, chk.tier))
+    stmts = [c[0] for c in cases]
+    impl = run_child_sharded(stmts)
+    # control runs for the fault family: same definitions, the failing statement never executed, deliberate
+    # assignments applied by hand
+    controls, control_of = [], {}
+    for ci, ((st, meta), recs) in enumerate(zip(cases, impl)):
+        if meta["family"] == "faults":
+            fa = meta["fail_at"]
+            cval = recs[-1]["r"]       # the follow-up `c`
+            if cval.startswith("(ok (i "):
+                n = int(cval[len("(ok (i "):-2])
+                control_of[ci] = len(controls)
+                controls.append(meta["pre"] + ['c::%d' % n] + meta["follow"])
+    ctrl = run_child_sharded(controls) if controls else []
+    reqs = []
+    for (st, meta), recs in zip(cases, impl):
+        terms = [r["term"] for r in recs]
+        if any(t is None for t in terms):
+            reqs.append("(run 1 ())")
+        else:
+            reqs.append("(run %d (%s))" % (FUEL, " ".join(terms)))
+    model = chk.run_model(reqs)
+    bad_props, bad_corrs = [], []
+    seen = set()
+    for ci, ((st, meta), recs, mod) in enumerate(zip(cases, impl, model)):
+        fam = meta["family"]
+        chk.count("programs_" + fam)
+        key = (fam, tuple(st))
+        if key not in seen:
+            seen.add(key)
+            chk.count("distinct_nontrivial")
+        if any(r["term"] is None for r in recs):
+            chk.count("skipped_unparsed")
+            bad_corrs.append({"kind": "generator produced a text outside the modelled syntax", "statements": st,
+                              "detail": [(r.get("unsupported"), r.get("parse")) for r in recs]})
+            continue
+        if any("parse" in r for r in recs):
+            bad_corrs.append({"kind": "generator text not fully parsed", "statements": st, "detail": [r.get("parse") for r in recs]})
+            continue
+        # ---- property oracle on the implementation alone
+        def viol(what, **kw):
+            bad_props.append(dict({"kind": what, "family": fam, "statements": st,
+                                   "impl_results": [r["r"] for r in recs], "depths": [(r["d0"], r["d1"]) for r in recs]}, **kw))
+        for i, r in enumerate(recs):
+            chk.count("evaluations")
+            if r["d1"] != r["d0"]:
+                viol("context depth changed by statement %d (%s): %d -> %d" % (i, st[i], r["d0"], r["d1"]))
+                break
+        same = meta.get("same")
+        if same:
+            rs = [recs[i]["r"] if not recs[i]["r"].startswith("EXC") else "EXC" for i in same]
+            if len(set(rs)) != 1:
+                viol("call forms / substituted body disagree: " + " | ".join("%s => %s" % (st[i], r[:60]) for i, r in zip(same, rs)))
+            elif fam == "proj" and rs[0] == "EXC":
+                viol("filled projection raises")
+        for k in ("expect_int", "expect_int2"):
+            if meta.get(k):
+                i, v = meta[k]
+                if recs[i]["r"] != "(ok (i %d))" % v:
+                    viol("statement %d (%s) should give %d, gives %s" % (i, st[i], v, recs[i]["r"][:80]))
+        if meta.get("expect_err"):
+            i, want = meta["expect_err"]
+            if recs[i]["r"].startswith("EXC") != want:
+                viol("statement %d (%s): branch selection wrong (error expected: %s, got %s)" % (i, st[i], want, recs[i]["r"][:60]))
+        if "no_change_from" in meta:
+            i0 = meta["no_change_from"]
+            base = strip_self(recs[i0 - 1]["frames"])
+            for i in range(i0, len(recs)):
+                if strip_self(recs[i]["frames"]) != base:
+                    viol("variables of the caller changed by statement %d (%s)" % (i, st[i]), before=sx(base), after=recs[i]["frames"])
+                    break
+        if fam == "faults":
+            fa = meta["fail_at"]
+            if not recs[fa]["r"].startswith("EXC"):
+                viol("planted fault did not raise")
+            else:
+                before = strip_self(recs[fa - 1]["frames"])
+                after = strip_self(recs[fa]["frames"])
+                dl = {name_code(n) for n in meta["deliberate"]}
+                strip = lambda frs: [[kv for kv in f if kv[0] not in dl] for f in frs]
+                if strip(before) != strip(after):
+                    viol("a failed call left variables of the caller changed", before=sx(before), after=sx(after))
+                if ci in control_of:
+                    crecs = ctrl[control_of[ci]]
+                    got = [r["r"] for r in recs[fa + 1:]]
+                    want = [r["r"] for r in crecs[-len(meta["follow"]):]]
+                    if got != want:
+                        viol("follow-up programs behave differently after the failed call", after_failure=got, never_called=want)
+                    chk.count("evaluations", len(want))
+                else:
+                    viol("follow-up `c` did not evaluate to an integer")
+        # ---- model equality
+        if len(mod) != len(recs):
+            bad_corrs.append({"kind": "model runner output shape", "statements": st, "model": sx(mod)[:300]})
+            continue
+        for i, (r, m) in enumerate(zip(recs, mod)):
+            mres = m[0]
+            if mres[0] == "err" and mres[1] in ("unmodelled", "fuel"):
+                chk.count("skipped_" + mres[1])
+                break
+            ir = r["r"]
+            if ir.startswith("UNSUPPORTED") or r["frames"].startswith("UNSUPPORTED") or ir == "RECURSION":
+                chk.count("skipped_unsupported_value")
+                break
+            ok = (mres[0] == "err" and ir.startswith("EXC")) or (mres[0] == "ok" and sx(mres) == ir)
+            ok = ok and m[1] == r["d1"] and model_frames(m) == r["frames"]
+            chk.count("compared_statements")
+            if not ok:
+                bad_corrs.append({"kind": "model-vs-klongpy", "family": fam, "statements": st, "at": i, "impl": ir[:300], "model": sx(mres)[:300],
+                                  "impl_depth": r["d1"], "model_depth": m[1], "impl_frames": r["frames"][:400], "model_frames": model_frames(m)[:400]})
+                break
+        if fam != "ops":
+            chk.sample({"family": fam, "statements": st[-4:], "results": [r["r"][:60] for r in recs[-4:]]}, limit=8)
+    return bad_props, bad_corrs
+
+
+FAMILIES = [family_calls, family_rec, family_proj, family_faults, family_cond, family_misc, family_ops]
+
+
+def run(tier, replay=None):
+    chk = Check("C03", tier)
+    rng = random.Random(chk.seed)
+    chk.generate(generate())
+    chk.build_model()
+    hits = forbidden_scan("C03")
+    proof = chk.build_proofs()
+    if hits:
+        proof["ok"] = False
+        proof["error"] = "forbidden declarations: %r" % hits
+        proof["broken"] = hits[0]
+    bp_m, bc_m = check_merge(chk, rng)
+    bad_props, bad_corrs = check_programs(chk, rng, FAMILIES)
+    if bp_m:
+        bad_props.insert(0, bp_m)
+    if bc_m:
+        bad_corrs.insert(0, bc_m)
+    if (bad_corrs or not proof["ok"]) and not bad_props and tier == "quick":
+        # something no longer checks: look harder for a failing input of the property itself
+        rng2 = random.Random(chk.seed + 1)
+        chk.tier = "thorough"
+        try:
+            bp2, _ = check_programs(chk, rng2, [family_calls, family_proj, family_faults, family_cond, family_rec])
+            bpm2, _ = check_merge(chk, rng2)
+        finally:
+            chk.tier = tier
+        bad_props = bp2 + ([bpm2] if bpm2 else [])
+    for bp in bad_props[:3]:
+        chk.violation("C03 property fails on the implementation: %s" % bp["kind"], bp)
+    if not chk.violations:
+        if bad_corrs:
+            bc = bad_corrs[0]
+            chk.violation("correspondence between klongpy and the Coq model broke (%s); no failing input of the property found in %d evaluations"
+                          % (bc["kind"], chk.counters.get("evaluations", 0)),
+                          {"broken": "correspondence C03/Model.v", "detail": bc, "more": len(bad_corrs) - 1}, no_input=True)
+        elif not proof["ok"]:
+            chk.violation("proof obligation no longer checks: %s" % proof["broken"],
+                          {"broken_obligation": proof["broken"], "coq_error": proof["error"], "generated": chk.generated_text}, no_input=True)
+    return chk.finish(
+        rule="programs: every depth-1 body of the closed grammar and all conditionals over 4 atoms, seeded depth-2/3 bodies, x argument tuples from a 13-value universe, "
+             "each as variable call / direct call / @ / substituted text; recursion through .f; every projection chain of arity 2 and 3 admitted by three resolution passes; "
+             "faults (3 kinds) at every slot of up to 3 nested calls x call forms; conditionals over 24 conditions; merge_projections called directly on all bases x fills; "
+             "verb tables over the universe. distinct = distinct (family, statement list) + merge inputs with at least one further list",
+        trusted_base=TRUSTED, assumptions=ASSUME)
